@@ -504,6 +504,461 @@ VF_PART(microsim)
   }
 }
 
+// ---------------------------------------------------------------------------------------------------------
+// popsim : the other non-conditional simulators, exact population statistics over EVERY seed 1..M-1
+//
+//   fft       CalcSimuFFT (discrete spectral / circulant embedding) on a 4x4 grid, 5 nodes giving lags 1 and 2 along both
+//             axes.  The seed-independent preparation (_alloc, _prepar: dilation, periodic covariance, FFT, amplitude) is
+//             executed ONCE on the real code; per seed the harness does exactly what CalcSimuFFT::_run/_simulate do:
+//             law_set_random_seed(seed); _defineRandom(); _defineSymmetry(); _final().  The equality of this path with the
+//             public simfft() is re-checked bit for bit on 64 seeds per configuration (key harness:fft-private-path).
+//             Approximation documented by the method: the grid is dilated until the covariance is below `percent` (0.1 %)
+//             of the variance, the covariance is periodised over the dilated grid (aliasing correction: 3^ndim images) and
+//             negative spectral terms are zeroed with a rescaling that preserves the total variance.  The induced error is
+//             therefore of the order (3^2-1) * 0.1 % = 0.8 % of the sill; it fits inside the 3 % used for all population
+//             covariances (which otherwise covers the lattice defect of the generator).  Measured on the unchanged tree:
+//             see the notes of the run (worst deviation printed per configuration).
+//   chol      MatrixSquareSymmetricSim::evalSimulate(white noise) with a dense matrix (z = L u, covariance M), the same
+//             with inverse=true (z = L^-T u, covariance M^-1) and with a sparse precision matrix (CholeskySparse).  The
+//             draw is linear, so besides the population covariance the factor itself is checked EXACTLY: the images of the
+//             basis vectors give S with S S^T = M (resp. M^-1) to 1e-10.
+//   spectral  simuSpectral() on 3 points, ns = 10 harmonics.  E[Z(x)Z(y)] = C(x-y) holds exactly for any ns (omega is drawn
+//             from the spectral measure, E[gamma^2] = 1, E[cos^2] = 1/2): no discretisation error, 3 % tolerance.
+//   spde      SPDE(...SIMUNONCOND, Cholesky) on a 7x7 turbo mesh of step 1 (49 vertices), output on a 3x3 grid; the object
+//             is prepared once, every seed calls the public SPDE::compute().  A finite element field is NOT the Matern
+//             model exactly (mesh step 1 for a range of 2: 5-10 % by construction), so the judged reference is the
+//             covariance the discretised model prescribes, A Q^-1 A^T (Q = getPrecisionOpCs()->getQ(), A = ProjMatrix),
+//             inverted in long double by the harness; the distance to Model::eval is reported in the notes, not judged
+//             (Q vs Matern is the business of C15).
+#include "API/SPDE.hpp"
+#include "LinearOp/MatrixSquareSymmetricSim.hpp"
+#include "LinearOp/PrecisionOpCs.hpp"
+#include "LinearOp/ProjMatrix.hpp"
+#include "Matrix/MatrixSparse.hpp"
+#include "Matrix/MatrixSquareSymmetric.hpp"
+#include "Matrix/NF_Triplet.hpp"
+#include "Mesh/MeshETurbo.hpp"
+#include "Simulation/CalcSimuFFT.hpp"
+#include "Simulation/SimuFFTParam.hpp"
+#include "Simulation/SimuSpectral.hpp"
+
+static bool invert_ld(int n, std::vector<long double> a, std::vector<long double>& inv)
+{
+  inv.assign(n * n, 0);
+  for (int i = 0; i < n; i++) inv[i * n + i] = 1;
+  for (int c = 0; c < n; c++)
+  {
+    int p = c;
+    for (int r = c + 1; r < n; r++) if (fabsl(a[r * n + c]) > fabsl(a[p * n + c])) p = r;
+    if (fabsl(a[p * n + c]) < 1e-300L) return false;
+    if (p != c) for (int k = 0; k < n; k++) { std::swap(a[p * n + k], a[c * n + k]); std::swap(inv[p * n + k], inv[c * n + k]); }
+    long double d = a[c * n + c];
+    for (int k = 0; k < n; k++) { a[c * n + k] /= d; inv[c * n + k] /= d; }
+    for (int r = 0; r < n; r++)
+    {
+      if (r == c) continue;
+      long double f = a[r * n + c];
+      if (f == 0) continue;
+      for (int k = 0; k < n; k++) { a[r * n + k] -= f * a[c * n + k]; inv[r * n + k] -= f * inv[c * n + k]; }
+    }
+  }
+  return true;
+}
+
+struct PopSim
+{
+  std::string family, name;
+  int K = 0;
+  bool quick = false;
+  double tolCov = 0.03, tolMean = 0.05;
+  std::vector<double> mu, Cm;      // expected mean and covariance (K, K*K)
+  std::string extraNote;
+  virtual bool prepare(Ctx& C, const std::string& kase) = 0;  // builds the objects, fills K, mu, Cm; may report violations
+  virtual bool draw(int seed, double* z) = 0;                 // one realisation from one seed; false = simulator error
+  virtual ~PopSim() {}
+};
+
+// ---- FFT
+struct FftSim : PopSim
+{
+  std::function<Model*()> mk;
+  Model* model = nullptr;
+  DbGrid* grid = nullptr;
+  CalcSimuFFT* calc = nullptr;
+  int iatt = -1;
+  VectorInt nxy{4, 4};
+  std::vector<int> nodes;  // (0,0) (1,0) (2,0) (0,1) (0,2): lags 1 and 2 along both axes
+  FftSim(const std::string& n, std::function<Model*()> m, bool q, int nx = 4, int ny = 4)
+  {
+    family = "fft"; name = n; mk = m; quick = q;
+    nxy = {nx, ny};
+    nodes = {0, 1, 2, nx, 2 * nx};
+  }
+  bool prepare(Ctx& C, const std::string& kase) override
+  {
+    defineDefaultSpace(ESpaceType::RN, 2);
+    model = mk();
+    grid = DbGrid::create(nxy);
+    SimuFFTParam param(true, 0.1);
+    calc = new CalcSimuFFT(1, false, 1);
+    calc->setDbout(grid);
+    calc->setModel(model);
+    calc->setParam(param);
+    if (!calc->_check() || !calc->_preprocess()) return false;
+    calc->_alloc();
+    calc->_prepar(true);
+    iatt = calc->_iattOut;
+    K = (int)nodes.size();
+    mu.assign(K, 0.);
+    Cm.assign(K * K, 0.);
+    for (int a = 0; a < K; a++)
+      for (int b = 0; b < K; b++)
+      {
+        VectorDouble pa{grid->getCoordinate(nodes[a], 0), grid->getCoordinate(nodes[a], 1)}, pb{grid->getCoordinate(nodes[b], 0), grid->getCoordinate(nodes[b], 1)};
+        Cm[a * K + b] = model->eval(SpacePoint(pa), SpacePoint(pb));
+      }
+    extraNote = "dilated grid " + std::to_string(calc->_dims[0]) + "x" + std::to_string(calc->_dims[1]) + " shift " + std::to_string(calc->_shift[0]) + "," + std::to_string(calc->_shift[1]);
+    // the private per-seed path must be the public simfft(), bit for bit
+    std::vector<double> z(K);
+    int bad = 0;
+    for (int k = 0; k < 64; k++)
+    {
+      int seed = 1 + (int)(((int64_t)(M - 2) * k) / 63);
+      DbGrid* g2 = DbGrid::create(nxy);
+      int n0 = g2->getColumnNumber();
+      int err = simfft(g2, model, param, 1, seed, false);
+      draw(seed, z.data());
+      for (int a = 0; a < K; a++) { double v = g2->getValueByColIdx(nodes[a], n0); if (err || memcmp(&v, &z[a], 8) != 0) bad++; }
+      delete g2;
+    }
+    C.outcome(bad ? "fft:private-path-differs-from-simfft" : "fft:private-path==simfft(64 seeds, bitwise)");
+    if (bad) { C.violation("harness:fft-private-path", name + ": the per-seed path used by the harness differs from the public simfft() (" + std::to_string(bad) + " values)", kase); return false; }
+    return true;
+  }
+  bool draw(int seed, double* z) override
+  {
+    law_set_random_seed(seed);
+    calc->_defineRandom();
+    calc->_defineSymmetry();
+    calc->_final(grid, iatt);
+    for (int a = 0; a < K; a++) z[a] = grid->getArray(nodes[a], iatt);
+    return true;
+  }
+};
+
+// ---- Cholesky
+struct CholSim : PopSim
+{
+  int mode;  // 0 dense z = L u ; 1 dense inverse=true ; 2 sparse inverse=true (precision matrix)
+  MatrixSquareSymmetric* Md = nullptr;
+  MatrixSparse* Ms = nullptr;
+  MatrixSquareSymmetricSim* S = nullptr;
+  VectorDouble u, out;
+  CholSim(const std::string& n, int m, bool q) { family = "chol"; name = n; mode = m; quick = q; }
+  bool prepare(Ctx& C, const std::string& kase) override
+  {
+    int n = mode == 2 ? 5 : 4;
+    std::vector<long double> Mv(n * n, 0);
+    if (mode < 2)
+    {
+      // M = B B^T with a dyadic lower-triangular B: symmetric positive definite by construction, entries exact in binary
+      const double B[16] = {1., 0., 0., 0., 0.5, 1.25, 0., 0., 0.25, -0.5, 1., 0., -0.125, 0.75, 0.5, 0.75};
+      Md = new MatrixSquareSymmetric(n);
+      for (int i = 0; i < n; i++)
+        for (int j = 0; j < n; j++)
+        {
+          double v = 0.;
+          for (int k = 0; k < n; k++) v += B[i * n + k] * B[j * n + k];
+          Md->setValue(i, j, v);
+          Mv[i * n + j] = v;
+        }
+      S = new MatrixSquareSymmetricSim(Md, mode == 1);
+    }
+    else
+    {
+      NF_Triplet T;
+      const double dg[5] = {2., 2.5, 3., 2.5, 2.}, off1[4] = {-1., -0.75, -1.25, -0.5}, off2[3] = {0.25, -0.5, 0.375};
+      for (int i = 0; i < n; i++) { T.add(i, i, dg[i]); Mv[i * n + i] = dg[i]; }
+      for (int i = 0; i < 4; i++) { T.add(i, i + 1, off1[i]); T.add(i + 1, i, off1[i]); Mv[i * n + i + 1] = Mv[(i + 1) * n + i] = off1[i]; }
+      for (int i = 0; i < 3; i++) { T.add(i, i + 2, off2[i]); T.add(i + 2, i, off2[i]); Mv[i * n + i + 2] = Mv[(i + 2) * n + i] = off2[i]; }
+      Ms = MatrixSparse::createFromTriplet(T, n, n);
+      S = new MatrixSquareSymmetricSim(Ms, true);
+    }
+    if (S->isEmpty() || S->getSize() != n) return false;
+    K = n;
+    mu.assign(K, 0.);
+    std::vector<long double> E = Mv;
+    if (mode >= 1 && !invert_ld(n, Mv, E)) return false;
+    Cm.assign(K * K, 0.);
+    for (int i = 0; i < K * K; i++) Cm[i] = (double)E[i];
+    u.resize(n); out.resize(n);
+    // exact: the images of the basis vectors
+    std::vector<double> F(n * n);
+    for (int j = 0; j < n; j++)
+    {
+      VectorDouble e(n, 0.), r;
+      e[j] = 1.;
+      if (S->evalSimulate(e, r) != 0 || (int)r.size() != n) return false;
+      for (int i = 0; i < n; i++) F[i * n + j] = r[i];
+    }
+    double worst = 0;
+    for (int i = 0; i < n; i++)
+      for (int j = 0; j < n; j++)
+      {
+        long double s = 0;
+        for (int k = 0; k < n; k++) s += (long double)F[i * n + k] * F[j * n + k];
+        worst = std::max(worst, (double)fabsl(s - E[i * n + j]));
+      }
+    C.eval();
+    C.outcome(worst <= 1e-10 ? "chol:factor-identity-exact" : "chol:factor-identity-VIOLATED");
+    extraNote = "max |S S^T - expected| = " + f6(worst);
+    if (worst > 1e-10)
+      C.violation("chol:" + name + ":factor-identity", name + ": S = evalSimulate(basis vectors) gives max |S S^T - " + (mode >= 1 ? "M^-1" : "M") + "| = " + fmt(worst), kase);
+    return true;
+  }
+  bool draw(int seed, double* z) override
+  {
+    law_set_random_seed(seed);
+    VH::simulateGaussianInPlace(u);
+    if (S->evalSimulate(u, out) != 0) return false;
+    for (int a = 0; a < K; a++) z[a] = out[a];
+    return true;
+  }
+};
+
+// ---- spectral
+struct SpecSim : PopSim
+{
+  std::function<Model*()> mk;
+  Model* model = nullptr;
+  Db* proto = nullptr;
+  int ns;
+  SpecSim(const std::string& n, std::function<Model*()> m, int ns_, bool q) { family = "spectral"; name = n; mk = m; ns = ns_; quick = q; }
+  bool prepare(Ctx&, const std::string&) override
+  {
+    defineDefaultSpace(ESpaceType::RN, 2);
+    model = mk();
+    std::vector<double> x{0., 1., 0.}, y{0., 0., 1.};
+    proto = make_db({x, y}, {"x1", "x2"}, {"x1", "x2"});
+    K = 3;
+    mu.assign(K, 0.);
+    Cm.assign(K * K, 0.);
+    for (int a = 0; a < K; a++) for (int b = 0; b < K; b++) Cm[a * K + b] = model->eval(SpacePoint(VectorDouble{x[a], y[a]}), SpacePoint(VectorDouble{x[b], y[b]}));
+    extraNote = "ns=" + std::to_string(ns);
+    return true;
+  }
+  bool draw(int seed, double* z) override
+  {
+    Db* db = proto->clone();
+    int n0 = db->getColumnNumber();
+    int err = simuSpectral(nullptr, db, model, 1, seed, ns);
+    bool ok = err == 0 && db->getColumnNumber() == n0 + 1;
+    if (ok) for (int a = 0; a < K; a++) z[a] = db->getValueByColIdx(a, n0);
+    delete db;
+    return ok;
+  }
+};
+
+// ---- SPDE
+struct SpdeSim : PopSim
+{
+  Model* model = nullptr;
+  DbGrid* grid = nullptr;
+  MeshETurbo* mesh = nullptr;
+  SPDE* spde = nullptr;
+  SpdeSim(const std::string& n, bool q) { family = "spde"; name = n; quick = q; }
+  bool prepare(Ctx& C, const std::string&) override
+  {
+    defineDefaultSpace(ESpaceType::RN, 2);
+    model = Model::createFromParam(ECov::MATERN, 2., 1.5, 1.);
+    grid = DbGrid::create({3, 3});
+    mesh = MeshETurbo::create({7, 7}, {1., 1.}, {-2., -2.});
+    spde = new SPDE(model, grid, nullptr, ESPDECalcMode::SIMUNONCOND, mesh, 1);
+    const PrecisionOpCs* pop = spde->getPrecisionOpCs(0);
+    if (pop == nullptr || pop->getQ() == nullptr) return false;
+    const MatrixSparse* Q = pop->getQ();
+    int nv = Q->getNRows();
+    if (nv != mesh->getNApices()) return false;
+    std::vector<long double> Qd(nv * nv), Qi;
+    for (int i = 0; i < nv; i++) for (int j = 0; j < nv; j++) Qd[i * nv + j] = Q->getValue(i, j);
+    if (!invert_ld(nv, Qd, Qi)) return false;
+    ProjMatrix A(grid, mesh);
+    K = grid->getSampleNumber();
+    if (A.getNRows() != K || A.getNCols() != nv) return false;
+    std::vector<long double> Ad(K * nv);
+    for (int a = 0; a < K; a++) for (int j = 0; j < nv; j++) Ad[a * nv + j] = A.getValue(a, j);
+    mu.assign(K, 0.);
+    Cm.assign(K * K, 0.);
+    double worstModel = 0;
+    for (int a = 0; a < K; a++)
+      for (int b = 0; b < K; b++)
+      {
+        long double s = 0;
+        for (int i = 0; i < nv; i++) { if (Ad[a * nv + i] == 0) continue; for (int j = 0; j < nv; j++) s += Ad[a * nv + i] * Qi[i * nv + j] * Ad[b * nv + j]; }
+        Cm[a * K + b] = (double)s;
+        VectorDouble pa{grid->getCoordinate(a, 0), grid->getCoordinate(a, 1)}, pb{grid->getCoordinate(b, 0), grid->getCoordinate(b, 1)};
+        worstModel = std::max(worstModel, std::fabs((double)s - model->eval(SpacePoint(pa), SpacePoint(pb))) / 1.5);
+      }
+    extraNote = "mesh 7x7 (49 vertices); max |A Q^-1 A^T - Matern model| = " + f6(100 * worstModel) + " % of the sill (finite element discretisation, reported only); A Q^-1 A^T variance at the central node " + f6(Cm[4 * K + 4]);
+    return true;
+  }
+  bool draw(int seed, double* z) override
+  {
+    // a fresh copy of the output grid per run: adding and deleting a column on the same Db makes its UID table grow
+    // with every call (each run would get slower and slower)
+    law_set_random_seed(seed);
+    DbGrid* h = grid->clone();
+    int n0 = h->getColumnNumber();
+    (void)spde->compute(h, 1);
+    bool ok = h->getColumnNumber() == n0 + 1;
+    if (ok) for (int a = 0; a < K; a++) z[a] = h->getValueByColIdx(a, n0);
+    delete h;
+    return ok;
+  }
+};
+
+static std::vector<PopSim*> pop_menu()
+{
+  std::vector<PopSim*> V;
+  V.push_back(new CholSim("dense-LU", 0, true));
+  V.push_back(new CholSim("dense-inverse", 1, false));
+  V.push_back(new CholSim("sparse-precision", 2, false));
+  // spectral: unit sills isolate the correlation structure (the spectral measure omega is drawn from); one configuration
+  // with a sill different from 1 checks that the sill is applied
+  V.push_back(new SpecSim("gaussian", [] { return Model::createFromParam(ECov::GAUSSIAN, 2., 1.); }, 10, true));
+  V.push_back(new SpecSim("exponential-aniso", [] { return Model::createFromParam(ECov::EXPONENTIAL, 1., 1., 1., {3., 1.}, VectorDouble(), {30., 0.}); }, 10, false));
+  V.push_back(new SpecSim("matern1", [] { return Model::createFromParam(ECov::MATERN, 2., 1., 1.); }, 10, false));
+  V.push_back(new SpecSim("exponential-sill2", [] { return Model::createFromParam(ECov::EXPONENTIAL, 2., 2.); }, 10, false));
+  V.push_back(new FftSim("spherical", [] { return Model::createFromParam(ECov::SPHERICAL, 2.5, 1.5); }, true));
+  V.push_back(new FftSim("exponential", [] { return Model::createFromParam(ECov::EXPONENTIAL, 2., 1.5); }, false));
+  V.push_back(new FftSim("gaussian", [] { return Model::createFromParam(ECov::GAUSSIAN, 2., 0.75); }, false));
+  V.push_back(new FftSim("spherical-aniso", [] { return Model::createFromParam(ECov::SPHERICAL, 1., 2., 1., {3., 1.5}); }, false));
+  // a grid whose dilated dimensions differ along x and y (5x3 -> 8x6): exercises the storage order of the spectrum
+  V.push_back(new FftSim("spherical-5x3", [] { return Model::createFromParam(ECov::SPHERICAL, 2.5, 1.5); }, false, 5, 3));
+  V.push_back(new SpdeSim("matern1-turbo7x7", false));
+  return V;
+}
+
+static void run_pop(Ctx& C, int icfg, PopSim& Q)
+{
+  std::string kase = std::to_string(icfg);
+  std::string full = Q.family + ":" + Q.name;
+  if (!Q.prepare(C, kase))
+  {
+    C.outcome(full + ":prepare-failed");
+    C.violation(Q.family + ":" + Q.name + ":setup", full + ": the simulator could not be set up", kase);
+    return;
+  }
+  int K = Q.K;
+  auto body = [&](int c, int wfd) -> int {
+    std::vector<long double> s(K, 0), cc(K * K, 0);
+    uint64_t n = 0, nonfinite = 0, errs = 0;
+    int lo = 1 + (int)(((int64_t)(M - 1) * c) / NCHILD), hi = (int)(((int64_t)(M - 1) * (c + 1)) / NCHILD);
+    std::vector<double> z(K);
+    int rc = 0;
+    for (int seed = lo; seed <= hi; seed++)
+    {
+      if ((seed & 0x3fff) == 0 && C.elapsed() > C.deadline) { rc = 3; break; }
+      if (!Q.draw(seed, z.data())) { errs++; continue; }
+      bool fin = true;
+      for (int a = 0; a < K; a++) if (!std::isfinite(z[a]) || FFFF(z[a])) fin = false;
+      if (!fin) { nonfinite++; continue; }
+      for (int a = 0; a < K; a++) { s[a] += z[a]; for (int b = a; b < K; b++) cc[a * K + b] += (long double)z[a] * z[b]; }
+      n++;
+    }
+    std::ostringstream o;
+    char buf[64];
+    o << n << " " << nonfinite << " " << errs;
+    for (int a = 0; a < K; a++) { snprintf(buf, 64, " %La", s[a]); o << buf; }
+    for (int a = 0; a < K; a++) for (int b = a; b < K; b++) { snprintf(buf, 64, " %La", cc[a * K + b]); o << buf; }
+    child_write(wfd, o.str());
+    return rc;
+  };
+  ParResult R = par_children(NCHILD, body, std::max(30., C.deadline - C.elapsed()) + 60.);
+  bool complete = R.ok;
+  std::vector<long double> s(K, 0), cc(K * K, 0);
+  uint64_t n = 0, nonfinite = 0, errs = 0;
+  for (int c = 0; c < NCHILD; c++)
+  {
+    if (R.data[c].empty()) { complete = false; C.note(full + ": child " + std::to_string(c) + " " + R.status[c]); continue; }
+    std::istringstream in(R.data[c]);
+    uint64_t a1, a2, a3;
+    in >> a1 >> a2 >> a3;
+    n += a1; nonfinite += a2; errs += a3;
+    std::string tok;
+    for (int a = 0; a < K; a++) { in >> tok; s[a] += strtold(tok.c_str(), nullptr); }
+    for (int a = 0; a < K; a++) for (int b = a; b < K; b++) { in >> tok; cc[a * K + b] += strtold(tok.c_str(), nullptr); }
+  }
+  C.eval(n + nonfinite + errs);
+  C.ps().traces += n;
+  C.outcome(full + ":realisations", n);
+  C.outcome(full + ":non-finite", nonfinite);
+  C.outcome(full + ":simulator-error", errs);
+  if (!complete || n + nonfinite + errs != (uint64_t)M - 1)
+  {
+    C.ps().exhaustive = false;
+    C.note(full + ": seed space not completed (" + std::to_string(n) + " of " + std::to_string(M - 1) + "), not judged");
+    return;
+  }
+  if (errs) C.violation(Q.family + ":" + Q.name + ":error", full + " failed for " + std::to_string(errs) + " seeds", kase);
+  if (nonfinite) C.violation(Q.family + ":" + Q.name + ":non-finite", full + ": " + std::to_string(nonfinite) + " seeds give a non-finite value", kase);
+  if (n == 0) return;
+  std::string rep = full + " (" + Q.extraNote + ") n=" + std::to_string(n) + " :";
+  double worst[3] = {0, 0, 0};
+  std::string worstTxt[3];
+  for (int a = 0; a < K; a++)
+  {
+    double m = (double)(s[a] / n);
+    double dev = std::fabs(m - Q.mu[a]) / sqrt(Q.Cm[a * K + a]);
+    if (dev > worst[0]) { worst[0] = dev; worstTxt[0] = "mean of component " + std::to_string(a) + " = " + fmt(m) + ", expected " + fmt(Q.mu[a]); }
+    for (int b = a; b < K; b++)
+    {
+      double e = (double)(cc[a * K + b] / n - (s[a] / n) * (s[b] / n));
+      double d = std::fabs(e - Q.Cm[a * K + b]) / sqrt(Q.Cm[a * K + a] * Q.Cm[b * K + b]);
+      int kind = (a == b) ? 1 : 2;
+      if (d > worst[kind]) { worst[kind] = d; worstTxt[kind] = std::string(kind == 1 ? "variance" : "covariance") + " of components (" + std::to_string(a) + "," + std::to_string(b) + ") = " + fmt(e) + ", expected " + fmt(Q.Cm[a * K + b]); }
+      if (K <= 5) { char bb[96]; snprintf(bb, 96, " C[%d,%d]=%.4f(%.4f)", a, b, e, Q.Cm[a * K + b]); rep += bb; }
+    }
+  }
+  char wb[160];
+  snprintf(wb, 160, " | worst deviations: mean %.3f %% var %.3f %% cov %.3f %%", 100 * worst[0], 100 * worst[1], 100 * worst[2]);
+  rep += wb;
+  C.note(rep);
+  if (C.verbose) fprintf(stderr, "%s\n", rep.c_str());
+  C.sample("{\"simulator\":" + jstr(full) + ",\"seeds\":" + std::to_string(n) + ",\"worst_dev_mean\":" + f6(worst[0]) + ",\"worst_dev_var\":" + f6(worst[1]) + ",\"worst_dev_cov\":" + f6(worst[2]) + "}");
+  const char* kinds[3] = {"mean", "variance", "covariance"};
+  for (int k = 0; k < 3; k++)
+  {
+    double tol = k == 0 ? Q.tolMean : Q.tolCov;
+    C.outcome(Q.family + "-" + kinds[k] + (worst[k] > tol ? ":outside-tolerance" : ":within-tolerance"));
+    if (worst[k] > tol)
+      C.violation(Q.family + ":" + Q.name + ":" + kinds[k], full + " (" + Q.extraNote + "): exact population over ALL seeds 1..20000158: " + worstTxt[k] + " (deviation " + f6(100 * worst[k]) + " % of the variance scale, tolerance " + f6(100 * tol) + " %)", kase);
+  }
+  for (int a = 0; a < K; a++) for (int b = a + 1; b < K; b++) if (std::fabs(Q.Cm[a * K + b]) > 1e-3) C.nontrivial(Hash().s(full).u(a).u(b).h);
+}
+
+VF_PART(popsim)
+{
+  std::vector<PopSim*> V = pop_menu();
+  if (!C.only_case.empty())
+  {
+    int i = atoi(C.only_case.c_str());
+    if (i >= 0 && i < (int)V.size()) run_pop(C, i, *V[i]);
+    return;
+  }
+  int k = 0;
+  for (int i = 0; i < (int)V.size(); i++)
+  {
+    if (!C.thorough() && !V[i]->quick) continue;
+    C.ps().space += (uint64_t)M - 1;
+    int owner = (1 + 3 * k++) % C.nshards;
+    if (owner != C.shard) continue;
+    if (C.expired()) break;
+    C.cur_case = std::to_string(i);
+    run_pop(C, i, *V[i]);
+  }
+}
+
 int main(int argc, char** argv)
 {
   return run_main(argc, argv, [](Ctx&) { silence(); });
